@@ -4,5 +4,7 @@ package all
 import (
 	_ "verif/checks/c16"
 	_ "verif/checks/c17"
+	_ "verif/checks/c18"
 	_ "verif/checks/c03"
+	_ "verif/checks/c10"
 )
